@@ -7,17 +7,23 @@ ASSUMPTIONS = ['the automatic safety obligations (pointer, bounds, overflow, fre
 EXPLANATION = 'header parser under arbitrary bytes: no safety violation, limits checked before allocation/use, error or well-formed result, nothing leaked'
 HG = ['src/drivers/ncmpio/ncmpio_header_get.c']
 
+def var_jobs(tier, prop):
+    # hdr_get_NC_var (C19_hdr_var.c): MiniSat does not finish; CaDiCaL 20 s per instance
+    js = []
+    for ver in (1, 5):
+        for nd in ((0, 2) if tier == 'quick' else (0, 1, 2, 3)):
+            js.append(Job('%s/hdr_get_NC_var/v%d_ndims%d' % (prop, ver, nd), prop, HG, 'C19_hdr_var.c', enforce='ncmpio_header_get.c:hdr_get_NC_var',
+                          replace=['ncmpio_header_get.c:hdr_get_uint32', 'ncmpio_header_get.c:hdr_get_uint64', 'ncmpio_header_get.c:hdr_get_nc_type', 'ncmpio_header_get.c:hdr_get_NC_name',
+                                   'ncmpio_header_get.c:hdr_get_NC_attrarray', 'ncmpii_xlen_nc_type'],
+                          defines=['-DFMTVER=%d' % ver, '-DNDIMS_C=%d' % nd], canaries=['accepted', 'emaxdims'] + (['ebaddim'] if nd else []), unwind=10, kind='bounded', solver=['--sat-solver', 'cadical'],
+                          unwindset=['ncmpio_header_get.c:hdr_get_NC_var.0:%d' % (nd + 1)],
+                          bound='format %d, variable with %d dimensions; all header values symbolic' % (ver, nd), timeout=300,
+                          assumptions=['hdr_get_NC_var: ncmpio_new_NC_var / ncmpio_free_NC_var are harness stubs with bodies (one static object, dimids array of the announced length); allocation failure not modelled']))
+    return js
+
 def jobs(tier, ws):
     js = []
-    # hdr_get_NC_var harness (C19_hdr_var.c): the solver does not finish (> 5 min per obligation, probed on 3 back ends); parked, not registered
-    import os
-    for ver in ((1, 5) if os.environ.get('VERIF_PARKED') else ()):
-        for nd in ((0, 2) if tier == 'quick' else (0, 1, 2, 3)):
-            js.append(Job('C19/hdr_get_NC_var/v%d_ndims%d' % (ver, nd), 'C19', HG, 'C19_hdr_var.c', enforce='ncmpio_header_get.c:hdr_get_NC_var',
-                          replace=['ncmpio_header_get.c:hdr_get_uint32', 'ncmpio_header_get.c:hdr_get_uint64', 'ncmpio_header_get.c:hdr_get_nc_type', 'ncmpio_header_get.c:hdr_get_NC_name',
-                                   'ncmpio_header_get.c:hdr_get_NC_attrarray', 'ncmpio_new_NC_var', 'ncmpio_free_NC_var', 'ncmpii_xlen_nc_type'],
-                          defines=['-DFMTVER=%d' % ver, '-DNDIMS_C=%d' % nd], canaries=['accepted', 'emaxdims'] + (['ebaddim'] if nd else []), unwind=10, kind='bounded', solver=['--sat-solver', 'cadical'],
-                          bound='format %d, variable with %d dimensions; all header values symbolic' % (ver, nd), timeout=300))
+    js += var_jobs(tier, 'C19')
     # the C04 parser jobs run with arbitrary file content and length: their safety obligations are C19's
     sel = [j for j in C04.jobs(tier, ws, prop='C19') if ('inj0' in j.name or 'hdr_get_uint64' in j.name or '/n8' in j.name or 'oversize' in j.name)]
     return js + (sel[:12] if tier == 'quick' else sel)
